@@ -8,6 +8,7 @@ import (
 	"flag"
 	"fmt"
 	"os"
+	"os/exec"
 	"path/filepath"
 	"regexp"
 	"runtime"
@@ -290,6 +291,20 @@ func cmdCheck(args []string) int {
 		fmt.Printf("VIOLATION property=%s replay=%s obligation=%s status=%s%s\n", id, rp, o.Name, o.Status, suffix)
 		rc = 1
 	}
+	// ---- thorough tier: the replay tests of the repaired defects run against the real code (regression guard with a real
+	// failing input: a repaired defect that returns fails its replay test) ----
+	var replayRuns []map[string]interface{}
+	if tier == "thorough" {
+		for _, rr := range runRegressionReplays(id) {
+			replayRuns = append(replayRuns, rr)
+			if rr["result"] == "fail" {
+				fmt.Printf("VIOLATION property=%s replay=%s test=%v (replayed on the real code: a repaired defect is back)\n", id, rr["file"], rr["failed_tests"])
+				rc = 1
+			} else if rr["result"] == "error" {
+				fmt.Printf("note: replay %s could not be run: %v\n", rr["file"], rr["detail"])
+			}
+		}
+	}
 	if vacuous {
 		rp := writeReplay(id, "vacuous", map[string]interface{}{"property": id, "error": "no obligations were generated for this property"})
 		fmt.Printf("VIOLATION property=%s replay=%s no-failing-input-found (no obligations generated)\n", id, rp)
@@ -371,6 +386,9 @@ func cmdCheck(args []string) int {
 		"samples":                samples,
 		"undischarged":           len(viols),
 		"timeout_s":              timeout,
+	}
+	if replayRuns != nil {
+		cov["regression_replays_on_real_code"] = replayRuns
 	}
 	if id == "C20" || id == "C10" {
 		// entry points carrying the pending marker (<id>x) are not claimed: list them, never count them
@@ -466,3 +484,66 @@ func tryReplay(p *Program, id string, o *Obligation, replayPath string) (bool, s
 }
 
 var replayDrivers = map[string]func(p *Program, id string, o *Obligation, replayPath string) (bool, string){}
+
+
+// runRegressionReplays runs, with `go test -overlay`, the replay tests registered for the property in /verif/replay/index.json.
+// Each test fails exactly when the defect it was written for is present in /repo's current working tree.
+func runRegressionReplays(id string) []map[string]interface{} {
+	raw, err := os.ReadFile(filepath.Join(verifDir(), "replay", "index.json"))
+	if err != nil {
+		return nil
+	}
+	var idx []struct {
+		Property, File, Pkg, What string
+		Tests                     []string
+	}
+	if json.Unmarshal(raw, &idx) != nil {
+		return nil
+	}
+	var out []map[string]interface{}
+	for _, e := range idx {
+		if e.Property != id {
+			continue
+		}
+		res := map[string]interface{}{"file": filepath.Join(verifDir(), "replay", e.File), "package": e.Pkg, "tests": e.Tests, "what": e.What}
+		dir, err := os.MkdirTemp("", "gocv-replay")
+		if err != nil {
+			res["result"], res["detail"] = "error", err.Error()
+			out = append(out, res)
+			continue
+		}
+		target := filepath.Join(repoDir(), strings.TrimPrefix(e.Pkg, "./"), "zz_replay_test.go")
+		ov, _ := json.Marshal(map[string]interface{}{"Replace": map[string]string{target: filepath.Join(verifDir(), "replay", e.File)}})
+		ovFile := filepath.Join(dir, "overlay.json")
+		_ = os.WriteFile(ovFile, ov, 0o644)
+		cmd := exec.Command("go", "test", "-overlay", ovFile, "-vet=off", "-count=1", "-timeout", "600s", "-run", "^("+strings.Join(e.Tests, "|")+")$", e.Pkg)
+		cmd.Dir = repoDir()
+		cmd.Env = append(os.Environ(), "GOFLAGS=-mod=mod", "GOPROXY=off", "GOSUMDB=off", "GOTOOLCHAIN=local")
+		outB, runErr := cmd.CombinedOutput()
+		os.RemoveAll(dir)
+		txt := string(outB)
+		var failed []string
+		for _, ln := range strings.Split(txt, "\n") {
+			if strings.HasPrefix(ln, "--- FAIL: ") {
+				failed = append(failed, strings.Fields(strings.TrimPrefix(ln, "--- FAIL: "))[0])
+			}
+		}
+		switch {
+		case runErr == nil:
+			res["result"] = "pass"
+		case len(failed) > 0:
+			res["result"], res["failed_tests"] = "fail", failed
+			var msgs []string
+			for _, ln := range strings.Split(txt, "\n") {
+				if strings.Contains(ln, "REPLAY:") {
+					msgs = append(msgs, strings.TrimSpace(ln))
+				}
+			}
+			res["detail"] = msgs
+		default:
+			res["result"], res["detail"] = "error", clip(txt, 600)
+		}
+		out = append(out, res)
+	}
+	return out
+}
